@@ -130,8 +130,13 @@ struct Outcome {
     tool_error: Option<String>,
 }
 
-async fn run_behaviour(rig: &Rig, b: &Value, idx: u64, f: u64) -> Outcome {
+/// `coarse`: every repair exchange runs as the real poller runs it - `get_keyspace_diff` and `begin_keyspace_sync`
+/// (both halves spawned concurrently, progress watcher), or a whole `repair_members` round on a young rig - at the
+/// point where the model's exchange reads the peer's state; the model's finer steps of that exchange are skipped.
+/// This is the behaviour in which the exchange's steps are contiguous, so the same final expectation applies.
+async fn run_behaviour(rig: &Rig, b: &Value, idx: u64, f: u64, coarse: bool) -> Outcome {
     let mut out = Outcome { why: vec![], drift: vec![], reads: Value::Null, tool_error: None };
+    let mut coarse_done: std::collections::BTreeSet<(u64, u64)> = Default::default();
     let ks = format!("b{}", idx);
     let tm = TimeMap { base_s: 100_000 + idx * 40_000, unit_s: 3600 / f };
     let mut exch: BTreeMap<(u64, u64), Exchange> = BTreeMap::new();
@@ -228,6 +233,32 @@ async fn run_behaviour(rig: &Rig, b: &Value, idx: u64, f: u64) -> Outcome {
                     return out;
                 }
             },
+            "getstate" if coarse => {
+                let (n, p) = (s["n"].as_u64().unwrap(), s["p"].as_u64().unwrap());
+                let me = &rig.nodes[&n];
+                let peer = &rig.nodes[&p];
+                coarse_done.insert((n, p));
+                if idx <= 3 {
+                    let mut members = BTreeMap::new();
+                    members.insert(peer.id, peer.addr);
+                    repair::repair_round(&me.grp(), &me.network, &members).await;
+                } else {
+                    match repair::keyspace_diff(&me.grp(), &me.network, &ks, peer.id, peer.addr).await {
+                        Ok((modified, removed, _)) => {
+                            if let Err(err) = repair::sync_keyspace(&me.grp(), &me.network, &ks, peer.id, peer.addr, removed, modified).await {
+                                out.why.push(("C01".into(), format!("step {i}: the repair exchange of node {n} with node {p} failed: {err}")));
+                                return out;
+                            }
+                        },
+                        Err(e) => {
+                            out.why.push(("C19".into(), format!("step {i}: get_state failed: {e:?}")));
+                            return out;
+                        },
+                    }
+                }
+            },
+            "diff" | "removals" | "fetch" | "modified"
+                if coarse && coarse_done.contains(&(s["n"].as_u64().unwrap(), s["p"].as_u64().unwrap())) => {},
             "getstate" => {
                 let (n, p) = (s["n"].as_u64().unwrap(), s["p"].as_u64().unwrap());
                 let me = &rig.nodes[&n];
@@ -389,6 +420,8 @@ pub async fn replay() {
     let out_path = arg_or("--out", "-");
     let passthrough = vcommon::arg("--passthrough");
     let max: usize = arg_or("--max", "1000000").parse().unwrap();
+    let coarse = arg_or("--mode", "fine") == "coarse";
+    let slice: Vec<usize> = arg_or("--slice", "0/1").split('/').map(|x| x.parse().unwrap()).collect();
     let ids: Vec<u64> = arg_or("--nodes", "1,2").split(',').map(|x| x.parse().unwrap()).collect();
     let mut behaviours: Vec<Value> = vec![];
     let mut seen = std::collections::HashSet::new();
@@ -405,9 +438,10 @@ pub async fn replay() {
     let mut last_had_restart = false;
     let mut steps_total = 0u64;
     let mut kinds: BTreeMap<String, u64> = BTreeMap::new();
+    let behaviours: Vec<Value> = behaviours.into_iter().enumerate().filter(|(i, _)| i % slice[1] == slice[0]).map(|(_, b)| b).collect();
     for (idx, b) in behaviours.iter().enumerate() {
         let has_restart = b["hist"].as_array().unwrap().iter().any(|s| s["a"] == "restart");
-        if in_rig >= 20_000 || has_restart || last_had_restart {
+        if in_rig >= 20_000 || has_restart || last_had_restart || (coarse && in_rig >= 30) {
             rig = Rig::new(&ids).await;
             in_rig = 0;
         }
@@ -418,7 +452,7 @@ pub async fn replay() {
             steps_total += 1;
             *kinds.entry(s["a"].as_str().unwrap().to_string()).or_default() += 1;
         }
-        let o = run_behaviour(&rig, b, in_rig, f).await;
+        let o = run_behaviour(&rig, b, in_rig, f, coarse).await;
         if let Some(e) = o.tool_error {
             eprintln!("tool error in behaviour {idx}: {e}");
             std::process::exit(2);
